@@ -724,6 +724,43 @@ func c17PullRefusedArms(c *fw.Ctx, i int) {
 	e.monitor()
 }
 
+// c17PullSlowAlone: an API pull (retry for ever, never auto-stop) towards an origin that accepts the
+// connection and then stays silent, with nobody else on the stream. The attempt runs until its own
+// timeout (5 s) - nothing in the rules ends it earlier - and, the budget being unlimited, is
+// followed by another attempt.
+func c17PullSlowAlone(c *fw.Ctx, i int) {
+	e := c17Start(c, i, false, nil)
+	if e == nil {
+		return
+	}
+	defer e.stop()
+	e.desc = "pull towards a silent origin with nobody else on the stream (retry for ever)"
+	c.Describe("%s", e.desc)
+	c.Cell("pull/slow-origin-alone")
+	e.script = []ref.StubBehaviour{{Hang: true}, {Hang: true}}
+	if a := e.apiStart(-1, -1); !a.Ok {
+		c.Violate("pull-api/start-refused", "start_relay_pull on an idle stream answered failure\n"+e.trace(), nil)
+		return
+	}
+	if !e.waitAttempts(1, 2*time.Second) {
+		c.Violate("pull-progress/first-attempt", "start_relay_pull answered success but no connection reached the origin within 2 s\n"+e.trace(), nil)
+		return
+	}
+	first := e.attempts()[0]
+	c.Eval(1)
+	// pull_timeout_ms is 5000: the attempt may not be given up before (guard band 1.5 s)
+	if srv.WaitFor(3500*time.Millisecond, first.IsClosed) {
+		c.Violate("pull-attempt/abandoned-early", fmt.Sprintf("the attempt towards a silent origin was abandoned %.1f s after it started (pull_timeout_ms 5000); nothing in the rules stops it: no API stop, no kick, auto-stop off\n%s", first.ClosedAt.Sub(first.AcceptAt).Seconds(), e.trace()), nil)
+		return
+	}
+	if !e.waitAttempts(2, 2*time.Second+4*c17Tick+c17Slack) {
+		c.Violate("pull-progress/retry-after-timeout", "pull_retry_num=-1: the first attempt timed out but no second attempt followed within 4 ticks\n"+e.trace(), nil)
+		return
+	}
+	e.apiStop()
+	e.monitor()
+}
+
 func c17PullKick(c *fw.Ctx, i int, static bool) {
 	e := c17Start(c, i, static, nil)
 	if e == nil {
@@ -1136,6 +1173,7 @@ func init() {
 		cat = append(cat, sc{"inflight-" + h, func(c *fw.Ctx, i int) { c17PullStopInFlight(c, i, h) }})
 	}
 	cat = append(cat, sc{"refused-arms", c17PullRefusedArms})
+	cat = append(cat, sc{"slow-alone", c17PullSlowAlone})
 	cat = append(cat, sc{"overtaken", func(c *fw.Ctx, i int) { c17PullOvertaken(c, i, false) }}, sc{"overtaken-static", func(c *fw.Ctx, i int) { c17PullOvertaken(c, i, true) }})
 	cat = append(cat, sc{"kick", func(c *fw.Ctx, i int) { c17PullKick(c, i, false) }}, sc{"kick-static", func(c *fw.Ctx, i int) { c17PullKick(c, i, true) }})
 	for _, p := range []struct {
@@ -1157,7 +1195,7 @@ func init() {
 		},
 		Batches:     func(string) int { return 16 },
 		CaseTimeout: func(string) time.Duration { return 4 * time.Minute },
-		Rule: "whole-server runs with a scriptable RTMP origin and scriptable push targets in the harness that log every accepted connection. Monitor (every run): each origin connection must be permitted — pulling enabled (static, or a start_relay_pull since the last stop/kick), no publisher or pull attached during the whole preceding tick, no earlier connection still unanswered, attempt count ≤ pull_retry_num+1 since the governing start/stop, and for auto-stop ≥ 0 a consumer present within window+1 tick (for a window > 0 a start call within the window counts as start-up grace). Scripted: retry budgets 0/1/3/−1 against a refusing origin (exact attempt counts; after the budget is spent stop + start must be accepted and get a fresh budget; for −1 attach, media, stop reply = attached id, pull_stop ≤ 3 s); auto-stop −1/0/2000/4000 ms and static pull (attach ≤ 4 s after a consumer joins, stop within [window−1 tick, window+2 ticks+1 s] after it leaves, never for −1); stop / second start / publisher while the attempt is held in flight by the origin; an attempt overtaken by a publisher that then leaves again (API with unlimited budget, and static): next attempt ≤ 4 ticks+0.3 s, attaches; kick of an attached API and static pull. Seeded programs over {consumer join/leave, start(retry, auto-stop), stop, kick, publisher arrive/leave} with origin outcomes refuse / close after connect / die after n messages / serve, judged by the monitor. Push: RTMP and RTSP publishers × 1–3 targets × target refusing its first 0–3 connections × URL parameters of 0/10/300/5000/40000 bytes: one publish session per target within (refusals+2) ticks+2 s, never two at once, publish name byte-equal incl. parameters, media arrives, sessions closed ≤ 3 s after the publisher left and no connection afterwards; a target that accepts and never answers while the publisher leaves and returns three times: never two connections at once, none left 13 s after the last publisher. cell = scenario × parameters.",
+		Rule: "whole-server runs with a scriptable RTMP origin and scriptable push targets in the harness that log every accepted connection. Monitor (every run): each origin connection must be permitted — pulling enabled (static, or a start_relay_pull since the last stop/kick), no publisher or pull attached during the whole preceding tick, no earlier connection still unanswered, attempt count ≤ pull_retry_num+1 since the governing start/stop, and for auto-stop ≥ 0 a consumer present within window+1 tick (for a window > 0 a start call within the window counts as start-up grace). Scripted: retry budgets 0/1/3/−1 against a refusing origin (exact attempt counts; after the budget is spent stop + start must be accepted and get a fresh budget; for −1 attach, media, stop reply = attached id, pull_stop ≤ 3 s); auto-stop −1/0/2000/4000 ms and static pull (attach ≤ 4 s after a consumer joins, stop within [window−1 tick, window+2 ticks+1 s] after it leaves, never for −1); stop / second start / publisher while the attempt is held in flight by the origin; an attempt overtaken by a publisher that then leaves again (API with unlimited budget, and static): next attempt ≤ 4 ticks+0.3 s, attaches; a pull towards a silent origin with nobody else on the stream (the attempt lasts until its own timeout and is retried); kick of an attached API and static pull. Seeded programs over {consumer join/leave, start(retry, auto-stop), stop, kick, publisher arrive/leave} with origin outcomes refuse / close after connect / die after n messages / serve, judged by the monitor. Push: RTMP and RTSP publishers × 1–3 targets × target refusing its first 0–3 connections × URL parameters of 0/10/300/5000/40000 bytes: one publish session per target within (refusals+2) ticks+2 s, never two at once, publish name byte-equal incl. parameters, media arrives, sessions closed ≤ 3 s after the publisher left and no connection afterwards; a target that accepts and never answers while the publisher leaves and returns three times: never two connections at once, none left 13 s after the last publisher. cell = scenario × parameters.",
 		Assumptions: []string{"a start_relay_pull that lal answers with an error still enables pulling as far as the attempt rules are concerned (lal stores the request and starts later); that the answer then misreports what happened is reported separately (`pull-api/refused-start-armed/*`, a known finding)", "time bands are one tick (1 s) + 0.3 s wide on each side; nothing is judged inside them", "RTSP pull origins are not driven (no RTSP stub server)"},
 		MinCells: 8,
 		Run: func(c *fw.Ctx, i int) {
